@@ -1,6 +1,7 @@
 """C03 - a directory's identifier is a canonical, deterministic function of its contents."""
 
 import itertools
+import json
 import os
 
 from .. import env, gen
@@ -20,7 +21,7 @@ ASSUMPTIONS = [
     "the parallel hashing path is reached by construction (two files larger than the threshold in one directory); its use is inferred from the inputs, not from an internal hook",
 ]
 MONITORS = "oid / bytes equality across permutations and configurations; independent canonical encoder; collision map"
-REQUIRED_COUNTERS = ["other_hash_name_listings_through_the_store", "legacy_algorithm_builds_with_large_text_files", "digested_object_reread_after_other_digests", "late_materialisations", "flaky_read_builds", "inode_only_swaps", "get_obj_after_add_histories", "state_warmed_under_other_algorithm", "permutations_checked", "sets_exhaustively_permuted", "disk_builds", "parallel_path_builds", "shuffled_walk_builds",
+REQUIRED_COUNTERS = ["digests_asked_to_keep_metadata", "other_hash_name_listings_through_the_store", "legacy_algorithm_builds_with_large_text_files", "digested_object_reread_after_other_digests", "late_materialisations", "flaky_read_builds", "inode_only_swaps", "get_obj_after_add_histories", "state_warmed_under_other_algorithm", "permutations_checked", "sets_exhaustively_permuted", "disk_builds", "parallel_path_builds", "shuffled_walk_builds",
                      "warm_state_builds", "prefix_objects_checked", "roundtrip_checks", "get_hashes_threshold_checks"]
 
 
@@ -152,7 +153,17 @@ def run_shard(ctx):
             t = Tree()
             for key, dg in items:
                 t.add(key, rmeta(rng), HashInfo("md5", dg))
-            t.digest()
+            wm_ = rng.random() < 0.5
+            t.digest(with_meta=wm_)
+            # the identifier is that of the entries; asking for the stored form to carry the per-file metadata as well does not change it
+            if wm_:
+                res.count("digests_asked_to_keep_metadata")
+                if t.oid != ref_oid:
+                    res.violation("digest-with-meta-changes-oid", f"digest(with_meta=True) named the listing {t.oid}, its entries make it {ref_oid}", case=case, detail={"entries": listing})
+                stored_ = Tree.from_list(json.loads(t.fs.cat_file(t.path)), hash_name="md5")
+                stored_.digest()
+                if stored_.oid != ref_oid:
+                    res.violation("list-roundtrip-changes-oid/stored-with-metadata", "the form stored by digest(with_meta=True) re-parses to another identifier", case=case, detail={"entries": listing})
             for with_meta in (False, True):
                 back = Tree.from_list(t.as_list(with_meta=with_meta), hash_name="md5" if with_meta else None)
                 got = {kk: hi.value for kk, _m, hi in back}
